@@ -126,3 +126,37 @@ class ClientLog:
             return r
 
         return run
+
+
+def s3_weather(weather: Optional[str], store: Any, sched: Any, actor: str = "A") -> None:
+    """Object-store weather on committer A's FIRST pointer PUT: '503_before' (refused, nothing applied),
+    'lost_response' (applied, then a 500 reaches the client), 'applied_412' (applied; the transport's retry
+    is answered 412 by A's own object).  The flip log sees what was really applied."""
+    if not weather:
+        return
+    from vf.fakes3 import client_error
+    st = {"done": False, "pending": None}
+
+    def mine(req: Any) -> bool:
+        me = sched.me()
+        return req.op == "PUT" and req.key.endswith(HINT) and me is not None and me.name == actor
+
+    def before(req: Any) -> None:
+        if not st["done"] and mine(req):
+            st["done"] = True
+            sched.counters["weather_fired"] = sched.counters.get("weather_fired", 0) + 1
+            if weather == "503_before":
+                raise client_error("ServiceUnavailable", "PUT", 503)
+            st["pending"] = req.n
+
+    def after(req: Any) -> None:
+        if st["pending"] == req.n:
+            st["pending"] = None
+            if req.effect == "written":
+                if weather == "applied_412":
+                    raise client_error("PreconditionFailed", "PUT", 412)
+                raise client_error("RequestTimeout", "PUT", 500)
+
+    store.before.append(before)
+    store.after.append(after)
+
